@@ -14,6 +14,7 @@ import (
 	"github.com/dominant-strategies/go-quai/core/state"
 	"github.com/dominant-strategies/go-quai/core/types"
 	"github.com/dominant-strategies/go-quai/core/vm"
+	"github.com/dominant-strategies/go-quai/crypto"
 	"github.com/dominant-strategies/go-quai/ethdb"
 	"github.com/dominant-strategies/go-quai/params"
 	"github.com/dominant-strategies/go-quai/rlp"
@@ -140,10 +141,12 @@ type tracer struct {
 	burnAtEnd *big.Int // balances still held by self-destructed accounts when the top frame ends
 	zeroAtEnd *big.Int // balance of the zero address when the top frame ends (inbound ETXs run out of it)
 	touched   []common.Address
-	slotsSeen map[common.AddressBytes]map[common.Hash]bool
-	counts    map[string]int
-	created   []common.Address
-	memPrev   [1030]memStep // C15: per depth, the memory size and charged cost seen at the previous step of that frame
+	// outOfScope: every address the run pointed a creation or value at that may lie outside this zone's Quai ledger (C16)
+	outOfScope []common.Address
+	slotsSeen  map[common.AddressBytes]map[common.Hash]bool
+	counts     map[string]int
+	created    []common.Address
+	memPrev    [1030]memStep // C15: per depth, the memory size and charged cost seen at the previous step of that frame
 }
 
 type memStep struct {
@@ -210,6 +213,9 @@ func classify(err error) string {
 
 func (t *tracer) touch(a common.Address) {
 	t.touched = append(t.touched, a)
+	if a.Bytes()[0] != loc.BytePrefix() || a.IsInQiLedgerScope() {
+		t.outOfScope = append(t.outOfScope, a)
+	}
 	t.w.know(a)
 }
 
@@ -464,7 +470,10 @@ func (t *tracer) CaptureState(env *vm.EVM, pc uint64, op vm.OpCode, gas, cost ui
 		pendOp("CREATE", 3, common.Address{})
 		f.creates++
 	case vm.CREATE2:
-		pendOp("CREATE2", 4, common.Address{})
+		o := pendOp("CREATE2", 4, common.Address{})
+		init := scope.Memory.GetCopy(int64(arg(1).Uint64()), int64(arg(2).Uint64()))
+		o.target = crypto.CreateAddress2(self, arg(3).Bytes32(), crypto.Keccak256(init), loc)
+		t.outOfScope = append(t.outOfScope, o.target)
 		f.creates++
 	case vm.ETX:
 		o := pendOp("ETX", 10, toAddr(arg(1)))
@@ -558,6 +567,18 @@ func (t *tracer) resolve(o *opRec, scope *vm.ScopeContext, child *frame) {
 			created := common.Bytes20ToAddress(word.Bytes20(), loc)
 			t.touch(created)
 			t.created = append(t.created, created)
+			// C16: contract creation yields an in-zone Quai address or fails
+			if created.Bytes()[0] != loc.BytePrefix() || created.IsInQiLedgerScope() {
+				t.violate("C16", "creation-scope", "op="+o.kind+" created-out-of-scope", "%s reports the new contract %x, which is not an in-zone Quai-ledger address", o.kind, created.Bytes())
+			}
+			if o.kind == "CREATE2" && created.Bytes20() != o.target.Bytes20() {
+				t.violate("C16", "creation-scope", "op=CREATE2 address-not-derived", "CREATE2 reports %x, the derivation from creator, salt and init code gives %x", created.Bytes(), o.target.Bytes())
+			}
+		} else if o.kind == "CREATE2" && (o.target.Bytes()[0] != loc.BytePrefix() || o.target.IsInQiLedgerScope()) {
+			t.counts["CREATE2-out-of-scope-refused"]++
+			if t.st.Exist(common.InternalAddress(o.target.Bytes20())) {
+				t.violate("C16", "creation-scope", "op=CREATE2 failed-creation-left-account qi="+fmt.Sprint(o.target.IsInQiLedgerScope()), "CREATE2 towards %x (zone byte %#x, qi ledger %v) reported failure but the account now exists with nonce %d", o.target.Bytes(), o.target.Bytes()[0], o.target.IsInQiLedgerScope(), t.st.GetNonce(common.InternalAddress(o.target.Bytes20())))
+			}
 		}
 	}
 
